@@ -21,8 +21,8 @@ from ..families import exporttruth as fam
 
 GEN = "exporttruth/SocConfigs"
 JUDGE = "exporttruth/ExportTruth"
-CLAUSES = ["RegisterAtPublishedAddress", "MultiWordAccessorsCompose", "FieldMacrosTrue", "MemoryRegionAnswers",
-           "CsrWindowAnswers", "ConstantsAndIrqs", "FormatsAgree", "MemImageLanes"]
+CLAUSES = ["RegisterAtPublishedAddress", "MultiWordAccessorsCompose", "FieldMacrosTrue", "SvdFieldsTrue", "MemoryRegionAnswers",
+           "CsrWindowAnswers", "ConstantsAndIrqs", "FormatsAgree", "MemImageLanes", "MemImageInRegion"]
 ENVCLAUSES = ["EnvLegal"]
 PLAN = {"quick": {"grid": True, "sample": 110, "imglen": 9, "chunk": 150},
         "thorough": {"grid": True, "sample": 2600, "imglen": 9, "chunk": 300}}
@@ -248,8 +248,10 @@ def describe(socs, images, fail):
     if kind == "img":
         m = images[sid]
         return ("%s: get_mem_data(data_width=%d, endianness=%s, %s, offset=0x%x) files (relative base, bytes) %s -> words %s; "
-                "bytes seen per word and lane %s" % (clause, m["dw"], m["e"], m["mode"], m["off"], m["files"],
-                                                    [hex(fam.from_bytes(w)) for w in m["words"]], m["lanes"]))
+                "bytes seen per word and lane %s%s" % (clause, m["dw"], m["e"], m["mode"], m["off"], m["files"],
+                                                      [hex(fam.from_bytes(w)) for w in m["words"]], m["lanes"],
+                                                      " - refused with %s although there are bytes to place" % m["err"]
+                                                      if m["refused"] else ""))
     s = socs[sid]
     c = s["cfg"]
     head = "%s: SoC %s %d-bit %s, CSR %d-bit %s ordering paging 0x%x" % (clause, c["std"], c["dw"], c["ic"], c["cdw"],
@@ -266,7 +268,10 @@ def describe(socs, images, fail):
                     fam.unA(it["a"]["csv"]) if it["a"]["csv"][0] >= 0 else -1,
                     [(w[0], hex(fam.unA(w[2]))) for w in it["svd"]],
                     hx(it["want"]), [(hex(fam.unA(o[0])), hx(o[1]), o[2]) for o in it["wops"]], hx(it["after"]), it["changed"],
-                    it["wid"], [(hex(fam.unA(o[0])), hx(o[1]), o[2]) for o in it["rops"]], hx(it["truth"])))
+                    it["wid"], [(hex(fam.unA(o[0])), hx(o[1]), o[2]) for o in it["rops"]], hx(it["truth"]))
+                + ("; soc.svd fields (first bit of the word, name, lsb, msb, bitRange) %s, hardware fields (name, csr.h offset, "
+                   "csr.h size, signal value) %s" % (it["svdf"], [(f["name"], f["off"], f["size"], hx(f["sig"])) for f in it["flds"]])
+                   if clause == "SvdFieldsTrue" else ""))
     return head + ": %s %s" % (kind, json.dumps(it)[:900])
 
 
@@ -311,7 +316,11 @@ def witnesses(socs, images):
     w = {"socs_built": 0, "socs_refused": 0, "registers": 0, "multiword_registers": 0, "registers_over_64_bits": 0,
          "registers_with_fields": 0, "atomic_registers": 0, "fixed_position_registers": 0, "reserved_fillers": 0,
          "csr_windows": 0, "regions": 0, "non_pow2_regions": 0, "interrupts": 0, "constants": 0, "bus_accesses": 0,
-         "skipped_after_hang": 0, "images": len(images), "images_refused": sum(m["refused"] for m in images)}
+         "skipped_after_hang": 0, "images": len(images), "images_refused": sum(m["refused"] for m in images),
+         "svd_fields_of_hardware_fields": 0, "svd_fields_split_over_words": 0, "wide_csr_windows": 0, "paged_csr_windows": 0, "csr_window_inner_probes": 0,
+         "rom_images_add_rom": 0, "rom_images_init_rom": 0, "rom_images_big_endian": 0, "rom_image_bytes_read": 0,
+         "rom_images_with_unaligned_tail": 0,
+         "images_listed_highest_first": sum(1 for m in images if len(m["files"]) > 1 and m["files"][0][0] > m["files"][1][0])}
     combos = set()
     for s in socs:
         if not s["built"]:
@@ -331,9 +340,27 @@ def witnesses(socs, images):
             w["multiword_registers"] += r["nw"]["h"] > 1
             w["registers_over_64_bits"] += r["W"] == 0
             w["registers_with_fields"] += bool(r["flds"])
+            names = {f["name"] for f in r["flds"]}
+            w["svd_fields_of_hardware_fields"] += sum(1 for e in r["svdf"] if e[1] in names)
+            w["svd_fields_split_over_words"] += sum(1 for nm in names if sum(1 for e in r["svdf"] if e[1] == nm and e[3] >= e[2]) > 1)
             w["atomic_registers"] += r["atomic"] and r["nw"]["h"] > 1
         w["fixed_position_registers"] += sum(1 for p in c["ps"] for r in p[6] if r[4] >= 0)
         w["csr_windows"] += sum(1 for x in s["wins"] if x["probes"])
+        for x in s["wins"]:
+            if not x["probes"]:
+                continue
+            w["wide_csr_windows"] += x["width"] > c["cdw"]
+            w["paged_csr_windows"] += any(p["page"] > 0 and p["pagereg"] == p["page"] for p in x["probes"])
+            w["csr_window_inner_probes"] += sum(1 for p in x["probes"] if 0 < p["k"] < x["depth"] - 1)
+        for g in s["regions"]:
+            im = g["img"]
+            if im["src"] == "none" or not im["rd"]:
+                continue
+            w["rom_images_add_rom"] += im["src"] == "file"
+            w["rom_images_init_rom"] += im["src"] == "init"
+            w["rom_images_big_endian"] += im["e"] == "big"
+            w["rom_image_bytes_read"] += len(im["rd"])
+            w["rom_images_with_unaligned_tail"] += len(im["file"]) % (c["dw"] // 8) != 0
         w["regions"] += len(s["regions"])
         w["non_pow2_regions"] += sum(1 for m in c["mems"] if m[3] & (m[3] - 1))
         w["interrupts"] += len(s["irqs"])
@@ -354,8 +381,11 @@ def run(prop, report, tier, seed, log=print):
                       "every RAM/ROM and CSR-mapped memory, not on every bit of state")
         report.assume("SoC netlists are simulated with the harness's compiled FHDL stepper; every reported SoC and a sample "
                       "of passing ones are re-run on litex.gen.sim (reference simulator) and must record identical facts")
-        report.assume("CSR-mapped memories not wider than the CSR bus, without paging; registers > 64 bits are accessed "
-                      "with the big-endian loop of hw/common.h over CSR_<REG>_ADDR/SIZE; plain CSR objects (event pending, "
+        report.assume("registers > 64 bits are accessed "
+                      "with the big-endian loop of hw/common.h over CSR_<REG>_ADDR/SIZE; CSR memories wider than the CSR bus "
+                      "are accessed most significant CSR word first (same loop), deeper than a page through <mem>_page; "
+                      "ROM images are packed as the Builder packs the BIOS (get_mem_data, bus data width, CPU endianness), "
+                      "init_rom with auto_size=False; plain CSR objects (event pending, "
                       "reserved fillers) are only checked for their published addresses; outside probes above a region "
                       "only for power-of-two sizes; big-endian lane rule: byte address a on lane n-1-(a mod n)")
         t0 = time.time()
@@ -400,7 +430,11 @@ def run(prop, report, tier, seed, log=print):
         report.add(**wit)
         for key in ("registers", "registers_passing_every_clause", "multiword_registers_passing_every_clause",
                     "multiword_registers", "registers_over_64_bits", "registers_with_fields", "atomic_registers",
-                    "fixed_position_registers", "csr_windows", "regions", "interrupts", "images"):
+                    "fixed_position_registers", "csr_windows", "regions", "interrupts", "images",
+                    "wide_csr_windows", "paged_csr_windows", "csr_window_inner_probes", "rom_images_add_rom",
+                    "rom_images_init_rom", "rom_images_big_endian", "rom_image_bytes_read",
+                    "rom_images_with_unaligned_tail", "images_listed_highest_first", "svd_fields_of_hardware_fields",
+                    "svd_fields_split_over_words"):
             if not wit[key]:
                 raise MachineryError("vacuous run: witness counter %s is zero" % key)
         if plan["grid"] and wit["core_combinations"] < 144:
@@ -423,8 +457,14 @@ def run(prop, report, tier, seed, log=print):
         reps = sorted(((k, g) for k, g in groups.items() if k[0] != "n"), key=lambda kg: (kg[0][0] != "known", kg[1][0]))
         new = [kg for kg in reps if kg[0][0] == "new"]
         if len(new) > 6:
-            report.note("%d distinct groups of new violations; the 6 cheapest are confirmed and reported" % len(new))
-            reps = [kg for kg in reps if kg[0][0] == "known"] + new[:6]
+            report.note("%d distinct groups of new violations; the cheapest of every clause, then the cheapest others "
+                        "(at least 6 in all) are confirmed and reported" % len(new))
+            first = {}
+            for kg in new:
+                first.setdefault(kg[0][1], kg)
+            head = list(first.values())
+            rest = [kg for kg in new if all(kg is not h for h in head)]
+            reps = [kg for kg in reps if kg[0][0] == "known"] + head + rest[:max(0, 6 - len(head))]
         # ---- confirm on the reference simulator: every SoC that is reported + the cheapest clean ones
         bad = {f[0] for f in fails if f[1] != "img"}
         ok = sorted((s for n, s in enumerate(socs) if s["built"] and n not in bad), key=_cost)
